@@ -1252,3 +1252,20 @@ func init() {
 	// only ever formatted into an error message
 	reg("reflect.TypeOf", func(m *Machine, fr *frame, a []Value) Value { return Iface{} })
 }
+
+func init() {
+	// the global math/rand source is an arbitrary choice
+	pick := func(m *Machine, fr *frame, a Value) Value {
+		n := m.concInt(fr, a, "rand bound")
+		if n <= 0 {
+			panic(targetPanic{rt: "invalid argument to Intn"})
+		}
+		if n > 8 {
+			n = 8 // only small ranges are enumerated; larger ones take one of the first eight values
+		}
+		return int64(m.decide("rand", int(n), nil))
+	}
+	reg("math/rand.Intn", func(m *Machine, fr *frame, a []Value) Value { return pick(m, fr, a[0]) })
+	reg("math/rand.Int31n", func(m *Machine, fr *frame, a []Value) Value { return pick(m, fr, a[0]) })
+	reg("math/rand.Int63n", func(m *Machine, fr *frame, a []Value) Value { return pick(m, fr, a[0]) })
+}
